@@ -10,8 +10,15 @@ Engine/RunResolve.v (inside Coq) and the observations must be equal.
 JSON shapes
   def    {'params': n | None, 'clauses': [{'nlocals': k, 'goals': [goal..]}]}
   goal   ['u', v, atom] | ['c', name, [v..]] | ['cut'] | ['raise']        (v = index into args ++ locals)
+         | {'params': None, 'clauses': [], 'const': z}    (the constant number z: CONSTS[z], not callable)
   op     ['reg', name, 'infer' | ['explicit', n] | 'variadic', def]
-         ['load', {'stmts': [['def', name, arity, def] | ['fail', kind]], 'broken': bool}, overwrite]
+         ['load', {'stmts': [stmt..], 'broken': bool}, overwrite]
+  stmt   ['def', name, arity, def]          compiled Prolog (the compiler's text of the definition)
+         ['pydef', key, def]                hand-written generator function `def key(a0, ..):` (any key, any parameter count)
+         ['lam', key, def]                  `key = lambda a0, ..: (yield from <the one goal of def>)`
+         ['const', key, z]                  `key = CONSTS[z]`        ['none', key]   `key = None`
+         ['del', key]                       `del key`                ['self', key]   `key = key`
+         ['fail', kind]                     a statement that raises (1/0, unknown name, import, class, ...)
          ['assert', name, [atom..], append] | ['clear'] | ['start', name, n] | ['next', i] | ['close', i]
 """
 import re, copy
@@ -32,11 +39,20 @@ THEOREMS = [
     'C08_reserved_exact',
     'C08_reserved_only_facts',
     'C08_predicate_keys_never_api_names',
+    'C08_load_val',
     'C08_load_get',
+    'C08_load_get_def',
     'C08_load_overwrite_exact',
     'C08_load_chain_order',
     'C08_load_frame',
+    'C08_load_del_unaffected',
     'C08_load_fail_atomic',
+    'C08_load_ok_iff',
+    'C08_load_op_atomic',
+    'C08_raised_load_resolves_as_before',
+    'C08_load_none_hides_variadic',
+    'C08_load_none_unbound',
+    'C08_noncallable_member_raises',
     'C08_register_get',
     'C08_history_refines_spec',
     'C08_defs_of_spec',
@@ -64,7 +80,9 @@ RESERVED = ['__builtins__', 'variable', 'atom', 'functor', 'functor1', 'functor2
             'makelist', 'ATOM_NIL', 'unify', 'match_dynamic', 'query', 'True', 'False']
 
 RULE = ('histories of 4-16 operations over {register_function (arity None / n / negative), load_script_from_string '
-        '(overwrite on/off; compiled Prolog, scripts raising at exec after some defs, broken Python), assert_fact, clear, '
+        '(overwrite on/off; compiled Prolog and hand-written Python: generator functions and lambdas under any key and with any parameter count, '
+        'constants / None bound to predicate keys and to other names, del / self-assignment of names, statements raising at exec after some bindings '
+        '(1/0, unknown names, import, class), broken Python), registration of non-functions, assert_fact, clear, '
         'start/next/close of suspended queries (created / suspended on a fact / suspended inside a definition while facts '
         'and definitions change)}; after every operation every name/arity in play is queried (answers in order).  Non-trivial: at some point a key holds >= 2 chained definitions or a name has both an exact and a '
         'variadic definition.  Distinct by hash of the case.')
@@ -74,13 +92,16 @@ TRUSTED_BASE = [
     'hand-written model Engine/Resolve.v of YP.query / match_dynamic / register_function / load_script_from_string / '
     'chain_functions / clear; tied to /repo by this differential run (not by translation)',
     'modelled, not verified: CPython generators (a generator = engine -> Done | Yield answer generator), exec/compile of '
-    'a script (statement list: def key / raise), `def` creating a new function object, inspect.signature',
+    'a script (statement list: def / lambda / constant / None bound to a key, del, self-assignment, raise), `def` creating a new '
+    'function object, `!=` on functions / constants / None / chain closures, inspect.signature',
     'definitions are abstracted to clauses over {V = atom, call, !, raise}; the compiler maps the generated Prolog '
     'text to them (checked by running the compiled text), Python predicates are interpreters of the same clauses',
     'harness: generators, driver of the implementation (harness/props/c08.py), parser of the printed observations',
 ]
-ASSUMPTIONS = ['scripts bind only predicate keys name_arity (a script that rebinds an API name such as atom/query is '
-               'outside the property)',
+ASSUMPTIONS = ['scripts do not rebind or delete the API names (atom, query, ..) or the keys of the builtin predicates (=_2, call_n, '
+               'once_1, ..): outside the property', 'functions in scripts reach other predicates through query(..), not by their Python name',
+               'a key bound to the same object under two names (k2 = k1) is not generated (the model has value identity for constants and '
+               'None, fresh identity for every def/lambda)',
                'nobody asserts facts for or redefines the builtin =/2 used by generated bodies',
                'histories whose model run exhausts the call-depth fuel (recursive definitions) are not compared']
 
@@ -98,6 +119,8 @@ def g_goal(g):
     raise ValueError(g)
 
 def g_def(d):
+    if 'const' in d:
+        return '(mkConst %d)' % d['const']
     p = 'None' if d['params'] is None else '(Some %s)' % g_nat(d['params'])
     cls = g_list(['(mkClause %s %s)' % (g_nat(c['nlocals']), g_list([g_goal(g) for g in c['goals']])) for c in d['clauses']])
     return '(mkDef %s %s)' % (p, cls)
@@ -110,15 +133,38 @@ def g_style(s):
     return '(RExplicit %s)' % g_nat(s[1])
 
 def stmt_key(st):
-    return '%s_%d' % (st[1], st[2])
+    if st[0] == 'def':
+        return '%s_%d' % (st[1], st[2])
+    return st[1]
+
+def const_def(z):
+    return {'params': None, 'clauses': [], 'const': z}
+
+def stmt_member(st):
+    """the object a binding statement binds its key to (a def / the constant), None for the other kinds"""
+    if st[0] == 'def':
+        return st[3]
+    if st[0] in ('pydef', 'lam'):
+        return st[2]
+    if st[0] == 'const':
+        return const_def(st[2])
+    return None
 
 def g_script(sc):
     ss = []
     for st in sc['stmts']:
-        if st[0] == 'def':
-            ss.append('(SDef %s %s)' % (g_str(stmt_key(st)), g_def(st[3])))
-        else:
+        if st[0] in ('def', 'pydef', 'lam', 'const'):
+            ss.append('(SDef %s %s)' % (g_str(stmt_key(st)), g_def(stmt_member(st))))
+        elif st[0] == 'none':
+            ss.append('(SNone %s)' % g_str(st[1]))
+        elif st[0] == 'del':
+            ss.append('(SDel %s)' % g_str(st[1]))
+        elif st[0] == 'self':
+            ss.append('(SSelf %s)' % g_str(st[1]))
+        elif st[0] == 'fail':
             ss.append('SFail')
+        else:
+            raise ValueError(st)
     return '(mkScript %s %s)' % (g_bool(bool(sc.get('broken'))), g_list(ss))
 
 def g_op(o):
@@ -166,7 +212,60 @@ def prolog_of_def(name, n, d):
         out.append(head + (' :- ' + ', '.join(gs) if gs else '') + '.')
     return '\n'.join(out) + '\n'
 
-FAIL_STMTS = ['_x = 1/0\n', 'some_undefined_name_\n', 'atom()\n', '[][1]\n']
+FAIL_STMTS = ['_x = 1/0\n', 'some_undefined_name_\n', 'atom()\n', '[][1]\n',
+              'import os\n', 'class Helper:\n    pass\n', 'from yldprolog import engine\n', 'print(1)\n',
+              '_y = undefined_table_[0]\n', 'assert not True\n']
+# constants a hand-written script keeps next to its predicates: not callable, pairwise different (Python ==)
+CONSTS = ['4', "'abc'", '[1, 2]', '(1,)', '{}', '3.5', "{'k': [7]}", '[]']
+
+def _py_goals(gs, env, ind, out):
+    """nested for-loops of a hand-written generator function (only names of the script context are used:
+    there are no builtins inside a loaded script)"""
+    pad = '    ' * ind
+    if not gs:
+        out.append(pad + 'yield False')
+        return
+    g = gs[0]
+    if g[0] == 'u':
+        if g[1] >= len(env):
+            _py_goals(gs[1:], env, ind, out)
+            return
+        out.append(pad + 'for _u in unify(%s, atom(%r)):' % (env[g[1]], g[2]))
+        _py_goals(gs[1:], env, ind + 1, out)
+    elif g[0] == 'c':
+        out.append(pad + 'for _c in query(%r, [%s]):' % (g[1], ', '.join(env[v] for v in g[2] if v < len(env))))
+        _py_goals(gs[1:], env, ind + 1, out)
+    elif g[0] == 'cut':
+        _py_goals(gs[1:], env, ind, out)
+        out.append(pad + 'return')
+    elif g[0] == 'raise':
+        out.append(pad + '[][1]')
+    else:
+        raise ValueError(g)
+
+def pydef_text(key, d):
+    n = d['params']
+    ps = ['a%d' % i for i in range(n)]
+    out = ['def %s(%s):' % (key, ', '.join(ps))]
+    for ci, c in enumerate(d['clauses']):
+        env = ps + ['l%d_%d' % (ci, j) for j in range(c['nlocals'])]
+        for j in range(c['nlocals']):
+            out.append('    %s = variable()' % env[n + j])
+        _py_goals(c['goals'], env, 1, out)
+    out += ['    if False:', '        yield False', '']
+    return '\n'.join(out)
+
+def lam_text(key, d):
+    n = d['params']
+    ps = ['a%d' % i for i in range(n)]
+    (c,) = d['clauses']
+    (g,) = c['goals']
+    if g[0] == 'u':
+        e = 'unify(%s, atom(%r))' % (ps[g[1]], g[2])
+    else:
+        e = 'query(%r, [%s])' % (g[1], ', '.join(ps[v] for v in g[2]))
+    return '%s = lambda %s: (yield from %s)\n' % (key, ', '.join(ps), e)
+
 BROKEN_TAILS = ['def (:\n', '  x = = 1\n', 'for in\n', '"unterminated\n']
 
 def script_text(sc):
@@ -179,6 +278,18 @@ def script_text(sc):
             if names != [stmt_key(st)]:
                 raise AssertionError('compiled text defines %r, expected %r' % (names, [stmt_key(st)]))
             parts.append(txt)
+        elif st[0] == 'pydef':
+            parts.append(pydef_text(st[1], st[2]))
+        elif st[0] == 'lam':
+            parts.append(lam_text(st[1], st[2]))
+        elif st[0] == 'const':
+            parts.append('%s = %s\n' % (st[1], CONSTS[st[2] % len(CONSTS)]))
+        elif st[0] == 'none':
+            parts.append('%s = None\n' % st[1])
+        elif st[0] == 'del':
+            parts.append('del %s\n' % st[1])
+        elif st[0] == 'self':
+            parts.append('%s = %s\n' % (st[1], st[1]))
         else:
             parts.append(FAIL_STMTS[st[1] % len(FAIL_STMTS)])
     if sc.get('broken'):
@@ -190,6 +301,8 @@ def script_text(sc):
 
 def make_pyfunc(yp, E, d):
     """A Python predicate that interprets the clauses of d (yields once per answer)."""
+    if 'const' in d:
+        return eval(CONSTS[d['const'] % len(CONSTS)], {})
     def goals(gs, env):
         # generator; its return value says whether a cut was executed
         if not gs:
@@ -271,12 +384,17 @@ def impl(case):
         res = ['ok']
         if k == 'reg':
             f = make_pyfunc(yp, E, o[3])
-            if o[2] == 'infer':
-                yp.register_function(o[1], f)
-            elif o[2] == 'variadic':
-                yp.register_function(o[1], f, arity=-1)
-            else:
-                yp.register_function(o[1], f, arity=o[2][1])
+            try:
+                if o[2] == 'infer':
+                    yp.register_function(o[1], f)
+                elif o[2] == 'variadic':
+                    yp.register_function(o[1], f, arity=-1)
+                else:
+                    yp.register_function(o[1], f, arity=o[2][1])
+            except RecursionError:
+                raise
+            except Exception:
+                res = ['raised']
         elif k == 'load':
             txt = script_text(o[1])
             try:
@@ -382,6 +500,10 @@ def _simple_def_answers(d, n):
 def _callfree(d):
     return all(g[0] != 'c' for c in d['clauses'] for g in c['goals'])
 
+def _callable_with(d, n):
+    """can the object be called with n arguments (a constant cannot be called at all)"""
+    return 'const' not in d and (d['params'] is None or d['params'] == n)
+
 class Spec:
     """The property statement as a tiny state machine: facts per name/arity, definition lists per key."""
     def __init__(self):
@@ -389,9 +511,37 @@ class Spec:
         self.ctx = {}
         self.maxchain = 0
         self.exact_and_variadic = False
+    def exec_script(self, sc):
+        """what the script does to the keys it names ({key: ('new', object) | ('none',) | ('del',)}), or None when the
+        load has to raise: text that does not compile, a raising statement, `del k` / `k = k` of a name that is not
+        bound at that point (scripts see a copy of the context, so this depends on the engine's state)"""
+        if sc.get('broken'):
+            return None
+        bound = set(self.ctx)
+        eff = {}
+        for st in sc['stmts']:
+            if st[0] == 'fail':
+                return None
+            key = stmt_key(st)
+            m = stmt_member(st)
+            if m is not None:
+                eff[key] = ('new', m)
+                bound.add(key)
+            elif st[0] == 'none':
+                eff[key] = ('none',)
+                bound.add(key)
+            elif st[0] == 'del':
+                if key not in bound:
+                    return None
+                bound.discard(key)
+                eff[key] = ('del',)
+            elif st[0] == 'self':
+                if key not in bound:
+                    return None
+        return eff
     def apply(self, o, ok):
         k = o[0]
-        if k == 'reg':
+        if k == 'reg' and ok:
             d = o[3]
             if o[2] == 'infer':
                 key = _key(o[1], d['params'] if d['params'] is not None else 1)
@@ -401,14 +551,17 @@ class Spec:
                 key = _key(o[1], o[2][1])
             self.ctx[key] = [d]
         elif k == 'load' and ok:
-            final = {}
-            for st in o[1]['stmts']:
-                final[stmt_key(st)] = st[3]
-            for key, d in final.items():
-                if o[2]:
-                    self.ctx[key] = [d]
-                else:
-                    self.ctx[key] = self.ctx.get(key, []) + [d]
+            # a key bound to None is a key with the empty list (it is BOUND: the variadic registration is not consulted)
+            for key, e in (self.exec_script(o[1]) or {}).items():
+                if e[0] == 'new':
+                    if o[2]:
+                        self.ctx[key] = [e[1]]
+                    else:
+                        self.ctx[key] = self.ctx.get(key, []) + [e[1]]
+                elif e[0] == 'none':
+                    # not bound / bound to None: `!=` is False, skipped; combine: chain(old, None) = old
+                    if self.ctx.get(key) and o[2]:
+                        self.ctx[key] = []
         elif k == 'assert':
             key = (o[1], len(o[2]))
             self.facts[key] = (self.facts.get(key, []) + [o[2]]) if o[3] else ([o[2]] + self.facts.get(key, []))
@@ -417,7 +570,9 @@ class Spec:
             self.ctx = {}
         for key, v in self.ctx.items():
             self.maxchain = max(self.maxchain, len(v))
-            if key.endswith('_n') and any(k2 != key and k2.rsplit('_', 1)[0] == key[:-2] and k2.rsplit('_', 1)[1].isdigit() for k2 in self.ctx):
+            if key.endswith('_n') and v and any(
+                    k2 != key and self.ctx[k2] and KEY_RE.match(k2) and KEY_RE.match(k2).group(1) == key[:-2]
+                    and KEY_RE.match(k2).group(2).isdigit() for k2 in self.ctx):
                 self.exact_and_variadic = True
     def call_defs(self, name, n):
         """the definitions a call name/n uses: exactly n arguments, else the variadic ones; none for an API name"""
@@ -433,7 +588,7 @@ class Spec:
         ds = self.call_defs(name, n)
         if not all(_callfree(d) for d in ds):
             return fa, None
-        if any(d['params'] is not None and d['params'] != n for d in ds):
+        if any(not _callable_with(d, n) for d in ds):
             return fa, 'raised'
         ans = list(fa)
         for d in ds:
@@ -444,7 +599,11 @@ class Spec:
         return ans, 'done'
 
 def load_should_fail(sc):
+    """raises whatever the state of the engine (see Spec.exec_script for `del` / `k = k`)"""
     return bool(sc.get('broken')) or any(st[0] == 'fail' for st in sc['stmts'])
+
+def reg_should_fail(o):
+    return o[2] == 'infer' and 'const' in o[3]          # inspect.signature(<constant>) raises
 
 class Suspended:
     """What the property demands of a query object that is resumed answer by answer while the engine is changed:
@@ -504,11 +663,17 @@ def oracle(case, io):
     susp = []
     for i, (o, (res, probes)) in enumerate(zip(case['ops'], io['steps'])):
         if o[0] == 'load':
-            want = 'raised' if load_should_fail(o[1]) else 'ok'
+            want = 'raised' if spec.exec_script(o[1]) is None else 'ok'
             if res[0] != want:
                 return 'operation %d: load %s but should have %s' % (i, res[0], want)
             if res[0] == 'raised' and prev is not None and probes != prev:
                 return 'operation %d: a load that raised changed the answers of some predicate' % i
+        elif o[0] == 'reg':
+            want = 'raised' if reg_should_fail(o) else 'ok'
+            if res[0] != want:
+                return 'operation %d: register_function %s but should have %s' % (i, res[0], want)
+            if res[0] == 'raised' and prev is not None and probes != prev:
+                return 'operation %d: a register_function that raised changed the answers of some predicate' % i
         elif o[0] == 'start':
             susp.append(Suspended(o[1], o[2]))
         elif o[0] == 'next':
@@ -577,6 +742,9 @@ LEVEL = {'r': 0, 'foo_1': 0, 'foo_n': 0, 'q': 1, 'foo': 1, 'once_1': 1, 'p': 2}
 RES_NAMES = ['atom', 'query', 'unify', 'variable', 'functor', 'match_dynamic', 'listpair']
 RES_PY_ONLY = ['True', 'ATOM_NIL', 'False']      # not writable as a Prolog atom without quotes
 ATOMS = ['a', 'b', 'c']
+# names a hand-written script uses that are not predicate keys name_arity
+NONPRED_KEYS = ['MAX_SIZE', 'helper', 'TABLE', '_cache', 'Limit', 'p', 'size_of', 'foo_1_', 'q_x1']
+KEY_RE = re.compile(r'^(.+)_(\d+|n)$')
 
 class Gen:
     def __init__(self, rng):
@@ -641,7 +809,50 @@ class Gen:
         name = self.rng.choice(self.names)
         return name, self.rng.choice(self.arities[name])
 
-    def op_load(self, keys=None, overwrite=None, fail=None):
+    def pred_key(self):
+        name, n = self.name_ar()
+        if self.rng.random() < 0.1:
+            return name, None, '%s_n' % name
+        return name, n, '%s_%d' % (name, n)
+
+    def extra_stmt(self, stmts):
+        """one statement of a hand-written script: a non-callable global, None, a generator function or lambda under
+        any key, a deletion, a self-assignment"""
+        rng = self.rng
+        r = rng.random()
+        name, n, key = self.pred_key()
+        bound_here = [stmt_key(st) for st in stmts if st[0] != 'fail']
+        q = rng.random()
+        if q < 0.2:
+            key, name, n = rng.choice(NONPRED_KEYS), 'zz', rng.choice([0, 1, 2])
+        elif q < 0.4 and bound_here:
+            key = rng.choice(bound_here)
+            m = KEY_RE.match(key)
+            if m and m.group(2) != 'n':
+                name, n = m.group(1), int(m.group(2))
+        if r < 0.4:
+            return ['const', key, rng.randrange(len(CONSTS))]
+        if r < 0.52:
+            return ['none', key]
+        if r < 0.72:
+            pn = n if n is not None else rng.choice([0, 1, 2])
+            if rng.random() < 0.12:
+                pn += 1                                  # under a key whose arity it cannot take
+            return ['pydef', key, self.mkdef(name, pn, True)]
+        if r < 0.82:
+            pn = n if n is not None else 1
+            self.ndefs += 1
+            if pn > 0 and rng.random() < 0.7:
+                g = ['u', 0, 'm%d_0' % self.ndefs]
+            else:
+                cn = self.callee(LEVEL.get(name, 0))
+                g = ['c', cn, [rng.randrange(pn) for _ in range(rng.choice([0, 1]) if pn else 0)]]
+            return ['lam', key, {'params': pn, 'clauses': [{'nlocals': 0, 'goals': [g]}]}]
+        if r < 0.92:
+            return ['del', key]
+        return ['self', key]
+
+    def op_load(self, keys=None, overwrite=None, fail=None, extras=None):
         rng = self.rng
         stmts = []
         if keys is None:
@@ -652,12 +863,16 @@ class Gen:
             if name in RES_PY_ONLY:
                 continue
             stmts.append(['def', name, n, self.mkdef(name, n, False)])
+        if extras is None:
+            extras = rng.choice([1, 1, 2, 3]) if rng.random() < 0.4 else 0
+        for _ in range(extras):
+            stmts.insert(rng.randrange(len(stmts) + 1), self.extra_stmt(stmts))
         sc = {'stmts': stmts, 'broken': False}
         if fail is None:
             fail = rng.random() < 0.22
         if fail:
             if rng.random() < 0.6:
-                stmts.insert(rng.randrange(len(stmts) + 1), ['fail', rng.randrange(4)])
+                stmts.insert(rng.randrange(len(stmts) + 1), ['fail', rng.randrange(len(FAIL_STMTS))])
             else:
                 sc['broken'] = True
                 sc['broken_pos'] = rng.randrange(len(stmts) + 1)
@@ -674,6 +889,10 @@ class Gen:
                 name = rng.choice(RES_PY_ONLY + RES_NAMES)
         if style is None:
             style = rng.choice(['infer', 'explicit', 'variadic', 'variadic'])
+            if rng.random() < 0.06:
+                # a thing that is not a function is registered
+                st = rng.choice(['infer', ['explicit', n], 'variadic'])
+                return ['reg', name, st, const_def(rng.randrange(len(CONSTS)))]
         if style == 'variadic':
             d = self.mkdef(name, n, True, params=None)
             if rng.random() < 0.25:
@@ -741,6 +960,17 @@ class Gen:
                     ops.append(['clear'])
             for _ in range(rng.choice([1, 2, 3])):
                 ops.append(['next', i])
+        elif sc < 0.75:
+            # a hand-written module (predicates with constants / None / deletions between them) is loaded over
+            # existing definitions, then a correct script for one of its keys
+            keys = [self.name_ar() for _ in range(rng.choice([2, 2, 3]))]
+            for kk in keys[:rng.choice([1, 1, 2])]:
+                ops.append(self.op_load(keys=[kk], overwrite=rng.random() < 0.3, fail=False, extras=0))
+                if rng.random() < 0.3:
+                    ops.append(['assert', kk[0], [rng.choice(ATOMS) for _ in range(kk[1])], True])
+            rng.shuffle(keys)
+            ops.append(self.op_load(keys=keys, overwrite=rng.random() < 0.3, fail=rng.random() < 0.2, extras=rng.choice([1, 2, 3])))
+            ops.append(self.op_load(keys=[rng.choice(keys)], overwrite=False, fail=False, extras=0))
         while len(ops) < nops:
             r = rng.random()
             if r < 0.36:
@@ -790,6 +1020,14 @@ def probes_of(ops, rng=None, cap=12):
                 if st[0] == 'def':
                     add(st[1], st[2])
                     from_def(st[3])
+                elif st[0] != 'fail':
+                    m = KEY_RE.match(st[1])
+                    if m and m.group(2) == 'n':
+                        add(m.group(1), 0); add(m.group(1), 1)
+                    elif m:
+                        add(m.group(1), int(m.group(2)))
+                    if st[0] in ('pydef', 'lam'):
+                        from_def(st[2])
         elif o[0] == 'assert':
             add(o[1], len(o[2]))
         elif o[0] == 'start':
@@ -896,6 +1134,38 @@ def builtin_corpus():
     case([['assert', 'p', ['f'], True], ['reg', 'p', ['explicit', 1], D(2, (0, [u(0, 'x')]))], ['start', 'p', 1], ['next', 0], ['next', 0], ['next', 0],
           ['reg', 'q', ['explicit', 1], d1], load([df('q', 1, d1)], False), ['reg', 'r', 'infer', D(1, (0, [u(0, 'a'), ['raise']]), (0, [u(0, 'b')]))],
           load([df('r', 1, d1)], False)])
+    # ---- hand-written scripts: things that are not definitions between the definitions
+    py = lambda key, d: ['pydef', key, d]
+    const = lambda key, z: ['const', key, z]
+    dred, dsq, dfour, dwhite = D(1, (0, [u(0, 'red')])), D(1, (0, [u(0, 'square')])), D(1, (0, [u(0, 'four')])), D(1, (0, [u(0, 'white')]))
+    # a module with a constant in the middle, combined with existing definitions (older script refers to shape/1):
+    # the load returns and EVERYTHING is merged; then a correct script is appended after it
+    case([load([df('color', 1, D(1, (0, [u(0, 'blue')]))), df('uses_shape', 1, D(1, (0, [c('shape', 0)])))], False),
+          ['assert', 'color', ['green'], True],
+          load([py('color_1', dred), py('shape_1', dsq), const('MAX_SIZE', 0), py('size_1', dfour)], False),
+          load([df('color', 1, dwhite)], False),
+          load([py('color_1', dred), const('TABLE', 2), ['fail', 4], py('size_1', dfour)], False),
+          load([const('Limit', 1), py('shape_1', dsq), ['fail', 5]], True),
+          load([df('shape', 1, dwhite)], False)], [('size', 1), ('shape', 1), ('MAX', 0)])
+    # a predicate key bound to a constant: every call that resolves to it raises after the facts; chained, replaced,
+    # the same constant again (skipped by `!=`), registered constants
+    case([['assert', 'p', ['f'], True], load([const('p_1', 0)], True), load([const('p_1', 0)], False), load([df('p', 1, d1)], False),
+          load([const('p_1', 3)], True), load([df('p', 1, d1)], True), load([df('q', 1, d3), const('p_1', 1), df('r', 1, d3)], False),
+          ['reg', 'q', ['explicit', 2], const_def(0)], ['reg', 'q', 'infer', const_def(0)], ['reg', 'q', 'variadic', const_def(5)],
+          load([const('q_2', 0)], False), load([const('q_n', 5)], True), load([df('q', 2, D(2, (0, [u(0, 'q2')])))], True)],
+         [('p', 0), ('q', 0), ('q', 2), ('q', 3)])
+    # None: an exact key bound to None (overwrite) hides the variadic registration; None for an unbound key binds nothing;
+    # combining None changes nothing
+    case([['reg', 'p', 'variadic', v], load([['none', 'p_1']], True), load([df('p', 1, d1)], True), load([['none', 'p_1']], False),
+          load([['none', 'p_1'], df('q', 1, d3)], True), load([['none', 'p_1']], True), load([df('p', 1, d3)], False),
+          load([['none', 'p_n']], True), ['clear'], load([['none', 'q_1'], ['self', 'q_1']], True), load([['self', 'q_1']], True)],
+         [('p', 0), ('p', 1), ('p', 2), ('q', 1)])
+    # del / self-assignment act on the copy: the engine keeps the definition; of an unbound name: NameError, nothing loaded
+    case([load([df('p', 1, d1)], True), load([['del', 'p_1'], df('q', 1, d3)], True), load([df('r', 1, d3), ['del', 'zz_1']], True),
+          load([['del', 'p_1'], py('p_1', dred)], False), load([['self', 'p_1'], ['self', 'r_1']], False),
+          load([py('r_1', dsq), ['del', 'r_1'], ['self', 'r_1']], True), load([['del', 'p_1'], ['del', 'p_1']], True),
+          load([py('helper', dsq), ['lam', 'r_1', D(1, (0, [c('p', 0)]))], ['lam', 'r_2', D(1, (0, [u(0, 'lam')]))]], True)],
+         [('r', 1), ('r', 2), ('zz', 1)])
     return L
 
 # ------------------------------------------------------------------ reporting
@@ -907,8 +1177,25 @@ def describe(case):
             sc = o[1]
             txt = []
             for st in sc['stmts']:
-                txt.append(prolog_of_def(st[1], st[2], st[3]).strip() if st[0] == 'def' else '<statement that raises>')
+                if st[0] == 'def':
+                    txt.append(prolog_of_def(st[1], st[2], st[3]).strip())
+                elif st[0] in ('pydef', 'lam'):
+                    txt.append('%s %s(<%d params>): %s' % ('def' if st[0] == 'pydef' else 'lambda', st[1], st[2]['params'],
+                                                          prolog_of_def_safe(st[1], st[2])))
+                elif st[0] == 'const':
+                    txt.append('%s = %s' % (st[1], CONSTS[st[2] % len(CONSTS)]))
+                elif st[0] == 'none':
+                    txt.append('%s = None' % st[1])
+                elif st[0] == 'del':
+                    txt.append('del %s' % st[1])
+                elif st[0] == 'self':
+                    txt.append('%s = %s' % (st[1], st[1]))
+                else:
+                    txt.append('<raises: %s>' % FAIL_STMTS[st[1] % len(FAIL_STMTS)].strip().replace('\n', ' '))
             out.append('load(overwrite=%s%s): %s' % (o[2], ', BROKEN PYTHON' if sc.get('broken') else '', ' | '.join(txt)))
+        elif o[0] == 'reg' and 'const' in o[3]:
+            out.append('register_function(%s, %s, arity=%s)' % (o[1], CONSTS[o[3]['const'] % len(CONSTS)],
+                       {'infer': 'None', 'variadic': '-1'}.get(o[2] if isinstance(o[2], str) else '', o[2][1] if not isinstance(o[2], str) else '')))
         elif o[0] == 'reg':
             nm = o[1] if o[3]['params'] is None else o[1]
             out.append('register_function(%s, <python %s params: %s>, arity=%s)' % (
@@ -954,6 +1241,9 @@ def shrink(case):
 
 def distribution(cases, obs):
     d = {'ops': {}, 'history_length': {}, 'loads_failing': 0, 'loads_ok': 0, 'loads_combining': 0, 'max_chain': {},
+         'script_statements': {}, 'loads_raised_by_del_or_self_of_unbound_name': 0,
+         'loads_ok_with_nonfunction_global': 0, 'loads_ok_combining_with_nonfunction_global_after_a_binding': 0,
+         'probes_raising_on_noncallable': 0, 'exact_key_bound_to_None_hiding_variadic': 0,
          'exact_and_variadic': 0, 'suspended_resumed_after_change': 0,
          'resumed_on_fact_after_definition_change': 0, 'first_next_after_change_since_creation': 0, 'probe_end': {}, 'answers_per_probe': {}, 'model_oof_skipped': 0}
     for c, o in zip(cases, obs):
@@ -983,7 +1273,24 @@ def distribution(cases, obs):
             d['first_next_after_change_since_creation'] += un
             spec = Spec()
             for op, (res, probes) in zip(c['ops'], o['steps']):
+                if op[0] == 'load':
+                    for st in op[1]['stmts']:
+                        d['script_statements'][st[0]] = d['script_statements'].get(st[0], 0) + 1
+                    if not load_should_fail(op[1]) and res[0] == 'raised':
+                        d['loads_raised_by_del_or_self_of_unbound_name'] += 1
+                    kinds = [st[0] for st in op[1]['stmts']]
+                    if res[0] == 'ok' and ('const' in kinds or 'none' in kinds):
+                        d['loads_ok_with_nonfunction_global'] += 1
+                        first = min(i for i, kd in enumerate(kinds) if kd in ('const', 'none'))
+                        if not op[2] and first > 0:
+                            d['loads_ok_combining_with_nonfunction_global_after_a_binding'] += 1
                 spec.apply(op, res[0] == 'ok')
+                for (pn, pa) in c['probes']:
+                    ds = spec.call_defs(pn, pa)
+                    if any('const' in x for x in ds):
+                        d['probes_raising_on_noncallable'] += 1
+                    if pn not in RESERVED and spec.ctx.get(_key(pn, pa)) == [] and spec.ctx.get(_key(pn, None)):
+                        d['exact_key_bound_to_None_hiding_variadic'] += 1
                 for p in probes:
                     e = p[1][0]
                     if e == 'oof':
